@@ -45,7 +45,7 @@ def cases(tier, seed, info):
     scheds, r = tlc.generate('gen/Gen_CleanWrite')
     info['schedules_from_tlc'] = len(scheds)
     rng = random.Random(seed + 12)
-    npel = 3 if tier == 'quick' else 20
+    npel = 3 if tier == 'quick' else 60
     out = []
     for p in range(npel):
         pel = genpel.gen_pel(rng, kinds=['PS', 'UD', 'EH'][: 1 + p % 3], creator='O', sev=0x40, flags=0x2000,
@@ -323,11 +323,13 @@ def run_case(case):
         plan[fault] = True
     out_dir = os.path.join(work, 'out')
 
-    real_open, real_remove = builtins.open, os.remove
+    real_open, real_remove, real_unlink, real_io_open = builtins.open, os.remove, os.unlink, io.open
     opened = []
 
     def fake_open(file, mode_='r', *a, **kw):
-        if isinstance(file, str) and os.path.dirname(os.path.abspath(file)) == out_dir and 'w' in mode_:
+        if isinstance(file, (str, os.PathLike)) and os.path.dirname(os.path.abspath(os.fspath(file))) == out_dir \
+                and ('w' in mode_ or 'x' in mode_ or 'a' in mode_):
+            file = os.fspath(file)
             if fault == 'open':
                 log.append('open_fail')
                 _raise(case.get('err', 'ENOSPC'), 'open')
@@ -339,13 +341,18 @@ def run_case(case):
         return real_open(file, mode_, *a, **kw)
 
     def fake_remove(path, *a, **kw):
-        if os.path.abspath(path) == in_path:
+        if os.path.abspath(os.fspath(path)) == in_path:
             log.append('remove')
         return real_remove(path, *a, **kw)
 
+    def fake_unlink(path, *a, **kw):           # pathlib.Path.unlink and os.unlink end up here
+        if os.path.abspath(os.fspath(path)) == in_path:
+            log.append('remove')
+        return real_unlink(path, *a, **kw)
+
     fake_out = FaultyStdout(plan if mode == 'file' else {}, log if mode == 'file' else _Log())
     uncaught = None
-    builtins.open, os.remove = fake_open, fake_remove
+    builtins.open, os.remove, os.unlink, io.open = fake_open, fake_remove, fake_unlink, fake_open
     try:
         if case['entry'] == 'func':
             cfg = Config()
@@ -374,7 +381,7 @@ def run_case(case):
                 except OSError:
                     pass
     finally:
-        builtins.open, os.remove = real_open, real_remove
+        builtins.open, os.remove, os.unlink, io.open = real_open, real_remove, real_unlink, real_io_open
     present = os.path.exists(in_path)
     unchanged = present and hashlib.sha256(open(in_path, 'rb').read()).hexdigest() == before
     if mode == 'json':
